@@ -121,6 +121,14 @@ def _fire(c, spec, idx, kind, detail):
         e = KeyboardInterrupt("injected cancel at point %d (%s)" % (idx, kind))
         e._gffsim = True
         raise e
+    if mode == "locked":
+        # sqlite's answer when another connection holds a conflicting lock and the busy timeout expires
+        if kind not in ("sql", "commit"):
+            return
+        c.fired.append({"at": idx, "kind": kind, "mode": mode})
+        e = sqlite3.OperationalError("database is locked")
+        e._gffsim = True
+        raise e
     if mode == "error":
         mk = _ERR_FOR_KIND.get(kind)
         if mk is None:
